@@ -30,6 +30,34 @@ Import ListNotations.
 From TI Require Import model.Iter.
 Open Scope Z_scope.
 
+(** ** vocabulary on the ghost log of [_render_] invocations (latest first) *)
+
+Definition same_key (a b : rcall) : bool :=
+  size_eqb (rc_size a) (rc_size b) && dur_eqb (rc_dur a) (rc_dur b) && (rc_args a =? rc_args b).
+
+(** the latest invocation that asked for frame [i] *)
+Fixpoint latest (i : Z) (l : list rcall) : option rcall :=
+  match l with
+  | [] => None
+  | c :: r => if rc_fo c =? i then Some c else latest i r
+  end.
+
+(** no frame is rendered twice in a row (among the renders of that frame) with the same
+    (size, duration, arguments) *)
+Fixpoint no_repeat (l : list rcall) : Prop :=
+  match l with
+  | [] => True
+  | c :: r => match latest (rc_fo c) r with Some c' => same_key c c' = false | None => True end
+              /\ no_repeat r
+  end.
+
+Fixpoint no_repeatb (l : list rcall) : bool :=
+  match l with
+  | [] => true
+  | c :: r => match latest (rc_fo c) r with Some c' => negb (same_key c c') | None => true end
+              && no_repeatb r
+  end.
+
 Section Spec.
   Variable RS : Type.
   Variable render : RS -> Z -> whence -> size -> dur -> Z -> rres * RS.
